@@ -138,6 +138,8 @@ static void oneSchema(vh::Rng& rng, bool general) {
     }
     uids.push_back(f.Emplace(t, def));
   }
+  // sometimes a base set gets an (erroneous, but storable) non-empty definition
+  if (rng.chance(1, 5)) f.SetExpressionFor(uids[0], rng.pick(names));
   // shuffle the list by admissible moves, so that order is not aligned with dependencies
   for (int k = 0; k < 3 * n; ++k) {
     auto it = f.List().begin(); const int pos = rng.range(0, n);
@@ -169,6 +171,16 @@ int main() {
     f.MoveBefore(d2, f.List().Find(d1));
     emit("c13 source " + sourceWire(f), "ok");
     runOps(f, { x1 });
+  }
+  // corpus: a base set X2 whose definition mentions X1, selected alone (pinned closure gap)
+  {
+    RSForm f;
+    const auto x1 = f.Emplace(CstType::base);
+    const auto x2 = f.Emplace(CstType::base);
+    f.SetExpressionFor(x2, "X1");
+    emit("c13 source " + sourceWire(f), "ok");
+    runOps(f, { x2 });
+    runOps(f, { x1, x2 });
   }
   const int N = deep ? 1500 : 150;
   ccl::verif::Seed(7U);
